@@ -48,6 +48,7 @@ fn dispatch(op: &str, a: &[&str]) -> Option<String> {
         "twfind" => twfind(a),
         "prestate" => crate::ops2::prestate(a),
         "ppreal" => crate::ops2::ppreal(a),
+        "conc" => crate::conc::conc(a),
         "memchr" => crate::ops3::memchr_op(a, false),
         "memchrd" => crate::ops3::memchr_op(a, true),
         "count" => crate::ops3::count_op(a, false),
@@ -90,7 +91,7 @@ fn gfind(a: &[&str]) -> Option<String> {
         return None;
     }
     let p = Placed::new(&hay, base);
-    verif::reset();
+    crate::vreset();
     verif::register_region(p.ptr(), hay.len());
     let (r, allocs) = alloc_probe::measure(|| unsafe {
         verif::small_find_raw(lanes, &needles, rev, p.ptr().add(soff), p.ptr().add(eoff))
@@ -134,7 +135,7 @@ fn gcount(a: &[&str]) -> Option<String> {
     }
     let n1 = needles[0];
     let p = Placed::new(&hay, base);
-    verif::reset();
+    crate::vreset();
     verif::register_region(p.ptr(), hay.len());
     let (r, allocs) = alloc_probe::measure(|| unsafe {
         verif::small_count_raw(lanes, n1, p.ptr().add(soff), p.ptr().add(eoff))
@@ -202,7 +203,7 @@ fn iseq(op: &str, a: &[&str]) -> Option<String> {
     let y = parse_bytes(a[3])?;
     let px = Placed::new(&x, usz(a[0])?);
     let py = Placed::new(&y, usz(a[2])?);
-    verif::reset();
+    crate::vreset();
     verif::register_region(px.ptr(), x.len());
     verif::register_region(py.ptr(), y.len());
     let (r, allocs) = alloc_probe::measure(|| match op {
@@ -242,7 +243,7 @@ fn rk(a: &[&str], foreign: bool) -> Option<String> {
     let ph = Placed::new(&hay, usz(rest[0])?);
     let pn = Placed::new(&needle, usz(rest[2])?);
     let cons = cons.unwrap_or_else(|| needle.clone());
-    verif::reset();
+    crate::vreset();
     verif::register_region(ph.ptr(), hay.len());
     verif::register_region(pn.ptr(), needle.len());
     use memchr::arch::all::rabinkarp as rkm;
@@ -276,7 +277,7 @@ fn swar(a: &[&str]) -> Option<String> {
         return None;
     }
     let p = Placed::new(&hay, base);
-    verif::reset();
+    crate::vreset();
     verif::register_region(p.ptr(), hay.len());
     use memchr::arch::all::memchr as sw;
     let (s, e) = unsafe { (p.ptr().add(soff), p.ptr().add(eoff)) };
@@ -315,7 +316,7 @@ fn swarcount(a: &[&str]) -> Option<String> {
         return None;
     }
     let p = Placed::new(&hay, base);
-    verif::reset();
+    crate::vreset();
     verif::register_region(p.ptr(), hay.len());
     let (s, e) = unsafe { (p.ptr().add(soff), p.ptr().add(eoff)) };
     let (r, allocs) = alloc_probe::measure(|| unsafe {
@@ -333,7 +334,7 @@ fn shiftor(a: &[&str]) -> Option<String> {
     }
     let needle = parse_bytes(a[0])?;
     let hay = parse_bytes(a[1])?;
-    verif::reset();
+    crate::vreset();
     let f = memchr::arch::all::shiftor::Finder::new(&needle);
     let (val, oracle) = match f {
         None => ("nofinder".to_string(), if needle.len() > 15 { "nofinder".to_string() } else { "finder".to_string() }),
@@ -364,7 +365,7 @@ fn pair(a: &[&str]) -> Option<String> {
     }
     let needle = parse_bytes(a[1])?;
     use memchr::arch::all::packedpair::Pair;
-    verif::reset();
+    crate::vreset();
     let (p, allocs) = alloc_probe::measure(|| {
         if a[0] == "default" {
             Some(Pair::new(&needle))
@@ -405,7 +406,7 @@ fn pairidx(a: &[&str]) -> Option<String> {
     let needle = parse_bytes(a[0])?;
     let i1: u8 = a[1].parse().ok()?;
     let i2: u8 = a[2].parse().ok()?;
-    verif::reset();
+    crate::vreset();
     let p = memchr::arch::all::packedpair::Pair::with_indices(&needle, i1, i2);
     let oracle = if i1 != i2 && (i1 as usize) < needle.len() && (i2 as usize) < needle.len() {
         format!("{},{}", i1, i2)
@@ -459,7 +460,7 @@ fn fbpre(a: &[&str]) -> Option<String> {
     let hay = parse_bytes(a[4])?;
     let ph = Placed::new(&hay, usz(a[3])?);
     use memchr::arch::all::packedpair as pp;
-    verif::reset();
+    crate::vreset();
     verif::register_region(ph.ptr(), hay.len());
     let pair = match pp::Pair::with_indices(&needle, i1, i2) {
         None => return Some(finish("badpair".to_string(), "badpair".to_string(), 0)),
@@ -489,7 +490,7 @@ fn ppfind(a: &[&str], prefilter: bool) -> Option<String> {
     };
     let ph = Placed::new(&hay, hbase);
     let pn = Placed::new(&sneedle, nbase);
-    verif::reset();
+    crate::vreset();
     verif::register_region(ph.ptr(), hay.len());
     verif::register_region(pn.ptr(), sneedle.len());
     let minlen = match verif::small_packedpair_min_len(lanes, &needle, i1, i2) {
@@ -497,7 +498,7 @@ fn ppfind(a: &[&str], prefilter: bool) -> Option<String> {
         Some(m) => m,
     };
     let _ = verif::take();
-    verif::reset();
+    crate::vreset();
     verif::register_region(ph.ptr(), hay.len());
     verif::register_region(pn.ptr(), sneedle.len());
     let r = catch_unwind(AssertUnwindSafe(|| unsafe {
@@ -546,7 +547,7 @@ fn twnew(a: &[&str]) -> Option<String> {
     }
     let needle = parse_bytes(a[1])?;
     use memchr::arch::all::twoway as tw;
-    verif::reset();
+    crate::vreset();
     let pn = Placed::new(&needle, 8192);
     verif::register_region(pn.ptr(), needle.len());
     let dbg = match a[0] {
@@ -568,7 +569,7 @@ fn twfind(a: &[&str]) -> Option<String> {
     use memchr::arch::all::twoway as tw;
     let ph = Placed::new(&hay, 4096);
     let pn = Placed::new(&needle, 8192);
-    verif::reset();
+    crate::vreset();
     verif::register_region(ph.ptr(), hay.len());
     verif::register_region(pn.ptr(), needle.len());
     let (r, allocs, oracle) = match a[0] {
@@ -585,6 +586,6 @@ fn twfind(a: &[&str]) -> Option<String> {
     Some(finish(fmt_opt(r), fmt_opt(oracle), allocs))
 }
 
-pub fn conc_child(_args: &[String]) {
-    // filled in by the C15 check
+pub fn conc_child(args: &[String]) {
+    crate::conc::child(args)
 }
